@@ -401,6 +401,38 @@ func genC18(g *Gen) {
 		g.pow(x, y.Neg(), g.r.Intn(6), true)
 		g.pow(g.cohort(x), y, g.r.Intn(6), true)
 	})
+	// the logarithm's table slots amplified by the exponent: the argument reduction of ln x works on the two leading digits
+	// of the coefficient (90 slots), and an error of 1e-35 in ln x that Log itself hides inside its ulp becomes tens of ulps
+	// in x^y for |y| in the thousands.  Every slot at its bottom, middle and top, exponent sign both ways.
+	g.gridRun(90*3*2, 0.3, func(i int) {
+		slot, pos, neg := 10+i/6, (i/2)%3, i%2 == 1
+		nd := 3 + g.r.Intn(31)
+		var frac *big.Int
+		switch pos {
+		case 0:
+			frac = big.NewInt(int64(1 + g.r.Intn(9)))
+		case 1:
+			frac = new(big.Int).Add(new(big.Int).Div(pow10(nd-2), big.NewInt(2)), randDigits(g.r, 1+g.r.Intn(nd-2)))
+			frac.Mod(frac, pow10(nd-2))
+		default:
+			frac = new(big.Int).Sub(pow10(nd-2), big.NewInt(int64(1+g.r.Intn(9))))
+		}
+		xc := new(big.Int).Add(new(big.Int).Mul(big.NewInt(int64(slot)), pow10(nd-2)), frac)
+		k := []int{0, 0, -3, 4}[g.r.Intn(4)]
+		x := mk(false, xc, k-(nd-1))
+		// |y * log10 x| stays below about 5000 so that the result is in range
+		lg := math.Log10(float64(slot)/10) + float64(k)
+		if math.Abs(lg) < 0.02 {
+			lg = 0.02
+		}
+		ymax := 5000 / math.Abs(lg)
+		if ymax > 40000 {
+			ymax = 40000
+		}
+		yv := int64(ymax * (0.5 + g.r.Float64()/2))
+		y := mk(neg, big.NewInt(yv*10+int64(g.r.Intn(10))), -1)
+		g.pow(x, y, 0, true)
+	})
 	for !g.w.full() {
 		switch g.r.Intn(10) {
 		case 0, 1: // the shortcut ladder with cohort variants
